@@ -1220,6 +1220,10 @@ class MyPyAstVisitor:
         if is_internal(name) and not name.endswith("__"):
             return False
 
+        if isinstance(parent, Function) and len(self.__declaration_stack) > 1:
+            # Attributes that are assigned in a constructor belong to the class of that constructor
+            parent = self.__declaration_stack[-2]
+
         if isinstance(parent, Class) and (name == "__init__" or not is_internal(name)):
             return parent.is_public
 
